@@ -189,7 +189,7 @@ class DcmMetaExtension(Nifti1Extension):
         slice_dim = self.slice_dim
         if slice_dim is None:
             return None
-        return np.array(self.affine[slice_dim][:3])
+        return np.array(self.affine[:3, slice_dim])
 
     @property
     def n_slices(self):
@@ -1327,7 +1327,7 @@ class NiftiWrapper(object):
         if self.meta_ext.n_slices != hdr.get_n_slices():
             return False
 
-        slice_dir = self.nii_img.affine[slice_dim, :3]
+        slice_dir = self.nii_img.affine[:3, slice_dim]
         slices_aligned = np.allclose(slice_dir,
                                      self.meta_ext.slice_normal,
                                      atol=1e-6)
